@@ -79,6 +79,12 @@ broken translator obligation):
                in definition order (a canonical representation of the set); `Rec(a, b, c)` for the records in
                VALUE_RECORDS (`RoutingTableEntry(routes, key, mask)`) is the tuple of its arguments; `module.NAME`
                string constants (assigned once) may be `struct` formats.
+  dicts      : parameter / result type "dict": a dict whose keys and values are ints (keys stand for hashable objects),
+               as the association list of its items in insertion order, keys unique (a hypothesis of the theorems).
+               `d.get(k, default)`, `d.copy()`, `iteritems(d)` / `d.items()` / `itervalues(d)` / `d.values()` /
+               `d.keys()` as iterables of comprehensions, `{k: e for k, v in iteritems(d)}` (the key must be the
+               iterated key: order and uniqueness are kept), `any(c for v in ...)` / `all(...)`, `d[k] += e` /
+               `d[k] -= e` (KeyError when absent).  "rec:a,b.c": a record parameter with (dotted) int attributes.
   events     : return type `ev:<t>`: calls of the methods in EVENT_CALLS (`warnings.warn`, `self._parent._perform_read`,
                `self._parent._perform_write`) are recorded, in order, in a list of `PyEvent` (name, integer arguments,
                bytes argument; the arguments of `warn` - a message - are not modelled) that is the LAST component of
@@ -230,6 +236,12 @@ FUNCS = [
      ["obj:_start_address,_end_address,_offset", "int"], "ev:bytes"),
     ("rig/machine_control/machine_controller.py", "SlicedMemoryIO.write",
      ["obj:_start_address,_end_address,_offset", "bytes"], "ev:int"),
+    # ---- fourth round ------------------------------------------------------------------------------------
+    ("rig/place_and_route/place/utils.py", "add_resources", ["dict", "dict"], "dict"),
+    ("rig/place_and_route/place/utils.py", "subtract_resources", ["dict", "dict"], "dict"),
+    ("rig/place_and_route/place/utils.py", "overallocated", ["dict"], "bool"),
+    ("rig/place_and_route/place/utils.py", "resources_after_reservation",
+     ["dict", "rec:resource,reservation.start,reservation.stop"], "exc:dict"),
     ("rig/machine_control/regions.py", "RegionCoreTree.__init__",
      ["obj:base_x,base_y,scale,shift,level;skip:locally_selected,subregions", "int", "int", "int"], "none"),
 ]
@@ -268,7 +280,8 @@ CONSTRUCTORS = {"SlicedMemoryIO": (1, 2)}
 
 BASE_TY = {"bytes": "List Int", "int": "Int", "tup2": "Int × Int", "tup3": "Int × Int × Int", "slice": "Int × Int", "bool": "Bool",
            "optnn": "Option (Nat × Nat)", "none": "Unit", "optint": "Option Int",
-           "oslice": "Option Int × Option Int × Option Int", "list:int": "List Int", "list:tup2": "List (Int × Int)"}
+           "oslice": "Option Int × Option Int × Option Int", "list:int": "List Int", "list:tup2": "List (Int × Int)",
+           "dict": "List (Int × Int)"}
 
 PRELUDE = '''/-! ### run-time support of the generated definitions (fixed text) -/
 
@@ -373,6 +386,12 @@ def pyStructUnpackFrom (big : Bool) (fs : List PyFmt) (buf : List Int) (off : In
 def pyStructUnpack (big : Bool) (fs : List PyFmt) (buf : List Int) : Except String (List Int) :=
   if buf.length = pyStructSize fs then Except.ok (pyStructValues big fs buf) else Except.error "struct.error"
 
+/-- `d[k] = f(d[k])` on a dict given as an association list (unique keys): `KeyError` when `k` is absent -/
+def pyDictUpd : List (Int × Int) → Int → (Int → Int) → Except String (List (Int × Int))
+  | [], _, _ => Except.error "KeyError"
+  | (k', v) :: t, k, f =>
+    if k' = k then Except.ok ((k', f v) :: t) else (pyDictUpd t k f).map (fun r => (k', v) :: r)
+
 /-- Python `int(math.sqrt(n))` (integer square root, exact below 2^52; `ValueError: math domain error` for n < 0) -/
 def pyIsqrt (n : Int) : Except String Int :=
   if n < 0 then Except.error "ValueError" else Except.ok ((Nat.sqrt n.toNat : Nat) : Int)
@@ -408,6 +427,8 @@ def lean_ty(t):
         return "List (" + prod(calls_types(t)) + ")"
     if t.startswith("list:rec:"):
         return "List (" + " × ".join(["Int"] * len(t[9:].split(","))) + ")"
+    if t.startswith("rec:"):
+        return " × ".join(["Int"] * len(t[4:].split(",")))
     if t.startswith("opt:"):
         return "Option " + paren(lean_ty(t[4:]))
     if t.startswith("raw:"):
@@ -511,6 +532,7 @@ class Tr(object):
         self.uses_fuel = False
         self.fn = None
         self.nloops = 0
+        self.dicts = set()            # names holding a dict of ints (association list, unique keys, insertion order)
         self.optslices = set()        # local variables declared `optslice`
         self.local_obj = False        # the object is created by the function itself (`x = cls()`)
         self.objname = "self"         # name of the parameter declared "obj:..."
@@ -679,6 +701,11 @@ class Tr(object):
             return "Bool"
         if isinstance(n, ast.Constant) and isinstance(n.value, bytes):
             return "List Int"
+        if isinstance(n, ast.DictComp) or (isinstance(n, ast.Call) and isinstance(n.func, ast.Attribute)
+                                           and n.func.attr == "copy" and self.dict_name(n.func.value)):
+            return "List (Int × Int)"
+        if isinstance(n, ast.Call) and isinstance(n.func, ast.Name) and n.func.id in ("any", "all"):
+            return "Bool"
         if isinstance(n, ast.SetComp):
             return "List Int"
         if isinstance(n, ast.Call) and self.record_value(n) is not None:
@@ -849,7 +876,49 @@ class Tr(object):
             return n.args
         return None
 
+    def dict_name(self, n):
+        return isinstance(n, ast.Name) and ident(n.id) in self.dicts and self.lty.get(ident(n.id)) == "List (Int × Int)"
+
+    def dict_view(self, n):
+        """`iteritems(d)` / `d.items()` -> ("items", d); `itervalues(d)` / `d.values()` -> ("values", d);
+        `iterkeys(d)` / `d.keys()` / `d` -> ("keys", d); else None"""
+        if isinstance(n, ast.Call) and not n.keywords:
+            if isinstance(n.func, ast.Name) and n.func.id in ("iteritems", "itervalues", "iterkeys") and len(n.args) == 1 \
+                    and self.dict_name(n.args[0]) and n.func.id not in self.lty:
+                return n.func.id[4:], ident(n.args[0].id)
+            if isinstance(n.func, ast.Attribute) and n.func.attr in ("items", "values", "keys") and not n.args \
+                    and self.dict_name(n.func.value):
+                return n.func.attr, ident(n.func.value.id)
+        if self.dict_name(n):
+            return "keys", ident(n.id)
+        return None
+
     def e(self, n):
+        # ---- dicts of ints (association lists with unique keys, in insertion order) ----
+        if isinstance(n, ast.Call) and isinstance(n.func, ast.Attribute) and n.func.attr == "get" and len(n.args) == 2 \
+                and not n.keywords and self.dict_name(n.func.value):
+            return "((%s.lookup %s).getD %s)" % (ident(n.func.value.id), self.e(n.args[0]), self.e(n.args[1]))
+        if isinstance(n, ast.Call) and isinstance(n.func, ast.Attribute) and n.func.attr == "copy" and not n.args \
+                and not n.keywords and self.dict_name(n.func.value):
+            return ident(n.func.value.id)            # values are immutable ints: a copy is the same association list
+        if isinstance(n, ast.DictComp) and len(n.generators) == 1 and not n.generators[0].ifs:
+            g = n.generators[0]
+            dv = self.dict_view(g.iter)
+            if dv is None or dv[0] != "items" or not (isinstance(g.target, ast.Tuple) and len(g.target.elts) == 2
+                                                        and all(isinstance(x, ast.Name) for x in g.target.elts)):
+                raise NotImplementedError("dict comprehension over " + ast.dump(g.iter)[:60])
+            kn, vn = [ident(x.id) for x in g.target.elts]
+            if not (isinstance(n.key, ast.Name) and ident(n.key.id) == kn):
+                raise NotImplementedError("dict comprehension whose key is not the iterated key (uniqueness / order)")
+            saved = dict(self.lty)
+            self.lty[kn] = self.lty[vn] = "Int"
+            body = self.e(n.value)
+            self.lty = saved
+            return "(%s.map (fun (kv_ : Int × Int) => let %s : Int := kv_.1; let %s : Int := kv_.2; (%s, %s)))" % (
+                dv[1], kn, vn, kn, body)
+        if isinstance(n, ast.Call) and isinstance(n.func, ast.Name) and n.func.id in ("any", "all") and len(n.args) == 1 \
+                and isinstance(n.args[0], ast.GeneratorExp) and n.func.id not in self.lty:
+            return "(decide %s)" % self.p(n)
         if isinstance(n, ast.SetComp) and len(n.generators) == 1 and len(n.generators[0].ifs) == 1 \
                 and isinstance(n.generators[0].target, ast.Name) and isinstance(n.elt, ast.Name) \
                 and n.elt.id == n.generators[0].target.id and self.enum_values(n.generators[0].iter) is not None:
@@ -1013,6 +1082,14 @@ class Tr(object):
                 return n.value.id + ".1"
             if n.attr == "stop":
                 return n.value.id + ".2"
+        if isinstance(n, ast.Attribute) and isinstance(n.value, ast.Attribute) and isinstance(n.value.value, ast.Name) \
+                and ident(n.value.value.id) in self.recs and ident(n.value.value.id) in self.lty:
+            # rec.a.b for a record declared with the dotted field `a.b`
+            fields = self.recs[ident(n.value.value.id)]
+            dotted = n.value.attr + "." + n.attr
+            if dotted not in fields:
+                raise NotImplementedError("attribute %s.%s is not declared" % (n.value.value.id, dotted))
+            return proj(ident(n.value.value.id), fields.index(dotted), len(fields))
         if isinstance(n, ast.Attribute) and isinstance(n.value, ast.Name) and ident(n.value.id) in self.recs \
                 and ident(n.value.id) in self.lty:
             fields = self.recs[ident(n.value.id)]
@@ -1184,6 +1261,29 @@ class Tr(object):
                 and isinstance(n.args[0], ast.Name) and self.types.get(n.args[0].id) == "oslice"
                 and isinstance(n.args[1], ast.Name) and n.args[1].id == "slice"):
             return "True"
+        if isinstance(n, ast.Call) and isinstance(n.func, ast.Name) and n.func.id in ("any", "all") and len(n.args) == 1 \
+                and isinstance(n.args[0], ast.GeneratorExp) and n.func.id not in self.lty:
+            g = n.args[0]
+            if len(g.generators) != 1 or g.generators[0].ifs or not isinstance(g.generators[0].target, ast.Name):
+                raise NotImplementedError("any / all over " + ast.dump(g)[:60])
+            dv = self.dict_view(g.generators[0].iter)
+            if dv is not None:
+                lst = {"items": None, "values": "(%s.map Prod.snd)" % dv[1], "keys": "(%s.map Prod.fst)" % dv[1]}[dv[0]]
+                ety = "Int"
+                if lst is None:
+                    raise NotImplementedError("any / all over items")
+            else:
+                lst, ety = self.iter_expr(g.generators[0].iter)
+            var = ident(g.generators[0].target.id)
+            saved = dict(self.lty)
+            self.lty[var] = ety
+            self.cond_depth += 1
+            try:
+                c = self.p(g.elt)
+            finally:
+                self.cond_depth -= 1
+                self.lty = saved
+            return "(%s.%s (fun (%s : %s) => decide %s) = true)" % (lst, n.func.id, var, ety, c)
         if isinstance(n, ast.BoolOp):
             # `a and b` / `a or b`: later operands are evaluated conditionally (no raising construct allowed there)
             j = " ∧ " if isinstance(n.op, ast.And) else " ∨ "
@@ -1673,7 +1773,18 @@ class Tr(object):
                 if isinstance(s.value, ast.Tuple):
                     cs = [self.tyof(x) for x in s.value.elts]
                 self.bind(names, cs)
+            if len(names) == 1 and vty == "List (Int × Int)" and (isinstance(s.value, ast.DictComp) or (
+                    isinstance(s.value, ast.Call) and isinstance(s.value.func, ast.Attribute) and s.value.func.attr == "copy")):
+                self.dicts.add(names[0])
             text = "%slet %s%s := %s\n" % (pad, pat, ty, val)
+            return self.seq(pad, text, rest, ind, tail)
+        if isinstance(s, ast.AugAssign) and isinstance(s.target, ast.Subscript) and self.dict_name(s.target.value) \
+                and isinstance(s.op, (ast.Add, ast.Sub)):
+            # d[k] += e / d[k] -= e: KeyError when k is absent (the old value is read first)
+            d = ident(s.target.value.id)
+            t = self.raising("(pyDictUpd %s %s (fun (v_ : Int) => v_ %s %s))" % (
+                d, self.e(s.target.slice), "+" if isinstance(s.op, ast.Add) else "-", self.e(s.value)))
+            text = "%slet %s : List (Int × Int) := %s\n" % (pad, d, t)
             return self.seq(pad, text, rest, ind, tail)
         if isinstance(s, ast.AugAssign):
             names = self.target_names(s.target)
@@ -2179,6 +2290,7 @@ def translate(repo, rel, fname, ptypes, ret, done=None):
         raise NotImplementedError("%s: parameters %r" % (fname, params))
     local_enums = int_enums(tree)
     attrs, aty, types, sig, recs, lty, skipped, objname = [], [], {}, [], {}, {}, [], "self"
+    dict_params = []
     for p, t in zip(params, ptypes):
         if t.startswith("obj:"):
             if attrs or (p != "self" and cls is not None and not nested_def and not local_obj):
@@ -2206,6 +2318,10 @@ def translate(repo, rel, fname, ptypes, ret, done=None):
             lty[ident(p)] = lean_ty(t)
             if t.startswith("list:rec:"):
                 types[p] = "list"
+            if t.startswith("rec:"):
+                recs[ident(p)] = t[4:].split(",")
+            if t == "dict":
+                dict_params.append(ident(p))
     tr = Tr(types, cls=cls, enums=visible_enums(repo, rel, tree), done=done, attrs=attrs, recs=recs)
     tr.local_enums = local_enums
     tr.module_enums = module_enums(repo, rel, tree)
@@ -2213,6 +2329,8 @@ def translate(repo, rel, fname, ptypes, ret, done=None):
     tr.obj_spec = next((t for t in ptypes if t.startswith("obj:")), None)
     tr.attr_specs = [x for x in (tr.obj_spec or "obj:")[4:].split(";")[0].split(",") if x]
     tr.objname = objname
+    tr.recs.update(recs)
+    tr.dicts = set(dict_params)
     tr.local_obj = bool(local_obj)
     tr.optslices = set(var_types)
     tr.mro = class_mro(tree, cls) if cls else [None]
